@@ -57,10 +57,12 @@ func c06SessionChild(args []string) int {
 func init() { childKinds["c06sess"] = c06SessionChild }
 
 var (
-	stOpenRe  = regexp.MustCompile(`openat\(AT_FDCWD, "([^"]*)", ([A-Z_|]+)(?:, [0-7]+)?\)\s+= (\d+)`)
-	stWriteRe = regexp.MustCompile(`pwrite64\((\d+), .*?, (\d+), (\d+)\)\s+= (-?\d+)`)
-	stTruncRe = regexp.MustCompile(`ftruncate\((\d+), (\d+)\)\s+= (-?\d+)`)
-	stCloseRe = regexp.MustCompile(`close\((\d+)\)\s+= 0`)
+	stOpenRe       = regexp.MustCompile(`openat\(AT_FDCWD, "([^"]*)", ([A-Z_|]+)(?:, [0-7]+)?\)\s+= (\d+)`)
+	stWriteRe      = regexp.MustCompile(`pwrite64\((\d+), .*?, (\d+), (\d+)\)\s+= (-?\d+)`)
+	stTruncRe      = regexp.MustCompile(`ftruncate\((\d+), (\d+)\)\s+= (-?\d+)`)
+	stUnfinishedRe = regexp.MustCompile(`^(\d+)\s+(.*) <unfinished \.\.\.>\s*$`)
+	stResumedRe    = regexp.MustCompile(`^(\d+)\s+<\.\.\. \w+ resumed>(.*)$`)
+	stCloseRe      = regexp.MustCompile(`close\((\d+)\)\s+= 0`)
 )
 
 type mutation struct {
@@ -172,8 +174,22 @@ func runC06Strace(t *mon.T, d c06Desc) {
 	f, _ := os.Open(stOut)
 	sc := bufio.NewScanner(f)
 	sc.Buffer(make([]byte, 1<<20), 1<<24)
+	pending := map[string]string{} // pid -> the first half of a call that strace printed as "<unfinished ...>"
 	for sc.Scan() {
 		line := sc.Text()
+		// with -f, a call of one thread can be printed in two pieces around lines of other threads:
+		//   123 pwrite64(3, ""..., 16, 11 <unfinished ...>   ...   123 <... pwrite64 resumed>) = 16
+		// the session itself is sequential, so joining the pieces at the "resumed" line keeps its order
+		if m := stUnfinishedRe.FindStringSubmatch(line); m != nil {
+			pending[m[1]] = m[2]
+			continue
+		}
+		if m := stResumedRe.FindStringSubmatch(line); m != nil {
+			if head, ok := pending[m[1]]; ok {
+				delete(pending, m[1])
+				line = m[1] + " " + head + m[2]
+			}
+		}
 		if m := stOpenRe.FindStringSubmatch(line); m != nil {
 			if m[1] == p2 {
 				fds[m[3]] = true
